@@ -132,32 +132,39 @@ Hypothesis HR : 0 <= R.
 Variable L : list Ops.op.
 Variable kd : rkind. Variable oram odisk : Z.       (* the fields of the object that the run does not depend on *)
 Variable T : Z.                                      (* the forward steps of the whole stream *)
+Variable Wt Rt : Z.                                  (* its writes to DISK and its loads from DISK *)
 Notation sumflen := RevBridge3.sumflen.
 Notation rstate := (RevBridge3.rstate L).
 Notation rdone := (RevBridge3.rdone L).
 Notation pDp := (DiskBridge2.pD N R).
 
-Definition Fut (i : nat) (c : cst) (p : list action) (x : dxst) (d : Z) : Prop :=
+Definition sumdw (l : list action) : Z := fold_right (fun a s => DiskBridge2.dwa a + s) 0 l.
+Definition sumdr (l : list action) : Z := fold_right (fun a s => DiskBridge2.dra a + s) 0 l.
+Definition Cn (wc rc : Z) (X : xstate) : Prop := disk_writes (cnt X) = wc /\ disk_reads (cnt X) = rc.
+Definition Fut (i : nat) (c : cst) (p : list action) (x : dxst) (d wc rc : Z) : Prop :=
   exists acts cf xf, convI N (length L - i) L i c = (acts, inl cf) /\ DiskBlk.dexecs N R x (p ++ acts) = Some xf /\ d + sumflen (p ++ acts) = T /\
+    wc + sumdw (p ++ acts) = Wt /\ rc + sumdr (p ++ acts) = Rt /\
     snaps cf = [] /\ RevBlk.store (mxx xf) = [] /\ RevBlk.rr (mxx xf) = N /\ RevBlk.endfwd (mxx xf) = true.
 Definition rsched (r : rst) (stt : bool) : sched := {| ob := ORevF kd N oram odisk r; started := stt |}.
 Definition leftover_or_ok (m : mon) : Prop := mon_ok m \/ exists i, merr_ m = Some (MX E_leftover, i).
 Inductive J : sched -> mon -> Prop :=
- | Jrun i c p x d stt m : (i <= length L)%nat -> mon_ok m -> DiskBridge2.RxD d x (mx m) -> RevBridge2.NN R (mxx x) -> DiskBridge2.NNd (DiskBlk.dk x) -> WD x ->
-     AgP N R c x p -> Forall RevBridge2.rev_clears p -> Fut i c p x d -> J (rsched (rstate i c p) stt) m
- | Jdone i c stt m : leftover_or_ok m -> fwd_total (cnt (mx m)) = T -> J (rsched (rdone i c) stt) m.
+ | Jrun i c p x d wc rc stt m : (i <= length L)%nat -> mon_ok m -> DiskBridge2.RxD d x (mx m) -> Cn wc rc (mx m) -> RevBridge2.NN R (mxx x) -> DiskBridge2.NNd (DiskBlk.dk x) -> WD x ->
+     AgP N R c x p -> Forall RevBridge2.rev_clears p -> Fut i c p x d wc rc -> J (rsched (rstate i c p) stt) m
+ | Jdone i c stt m : leftover_or_ok m -> fwd_total (cnt (mx m)) = T -> Cn Wt Rt (mx m) -> J (rsched (rdone i c) stt) m.
 
 (* one emitted action against the monitor *)
 Lemma emit_ok i' c' rest x d a x1 m sch' :
   sch' = rsched (rstate i' c' rest) true ->
   mon_ok m -> DiskBridge2.RxD d x (mx m) -> RevBridge2.NN R (mxx x) -> DiskBridge2.NNd (DiskBlk.dk x) -> RevBridge2.rev_clears a -> DiskBlk.dexec N R x a = Some x1 -> agree c' x1 ->
-  exists m', mon_step pDp sch' a m = m' /\ mon_ok m' /\ DiskBridge2.RxD (d + MSTerm.flen a) x1 (mx m') /\ RevBridge2.NN R (mxx x1) /\ DiskBridge2.NNd (DiskBlk.dk x1).
+  exists m', mon_step pDp sch' a m = m' /\ mon_ok m' /\ DiskBridge2.RxD (d + MSTerm.flen a) x1 (mx m') /\ RevBridge2.NN R (mxx x1) /\ DiskBridge2.NNd (DiskBlk.dk x1) /\
+    forall wc rc, Cn wc rc (mx m) -> Cn (wc + DiskBridge2.dwa a) (rc + DiskBridge2.dra a) (mx m').
 Proof.
   intros -> Hm HRx HNN HNd Hcl Hex [Af Ar].
   set (sch' := rsched (rstate i' c' rest) true).
   destruct (DiskBridge2.dexec_agrees N R HR d x (mx m) a x1 (is_exhausted sch') HRx HNN HNd Hcl Hex) as (Hchk & HRx' & HNN' & HNd').
   assert (Hexec : exec pDp (negb (isnone (get_max_n sch'))) (is_exhausted sch') (mx m) a = inl (apply pDp (is_exhausted sch') (mx m) a)) by (apply exec_ok; exact Hchk).
-  exists {| mx := apply pDp (is_exhausted sch') (mx m) a; merr_ := None; mcount := mcount m + 1 |}. split; [|split; [|split; [exact HRx'|split; [exact HNN'|exact HNd']]]].
+  exists {| mx := apply pDp (is_exhausted sch') (mx m) a; merr_ := None; mcount := mcount m + 1 |}. split; [|split; [|split; [exact HRx'|split; [exact HNN'|split; [exact HNd'|]]]]].
+  3:{ intros wc rc [Hw Hr]. destruct (DiskBridge2.dexec_counts N R x a x1 (mx m) (is_exhausted sch') Hex Hchk) as [Cw Cr]. unfold Cn. cbn [mx]. split; lia. }
   - apply (mon_step_ok pDp sch' a m _ Hm Hexec).
     + destruct HRx' as ((Rf & _) & _). cbn [fwd set_store] in Rf. rewrite Rf. cbn [toMS MSPot.fwd]. rewrite Af. cbn [get_max_n sch' rsched ob isnone andb].
       unfold get_n. cbn [sch' rsched ob cs RevBridge3.rstate]. apply Z.eqb_refl.
@@ -178,11 +185,11 @@ Definition step2 (s : sched) (m : mon) : Prop :=
 Lemma J_step sch m : J sch m -> step2 sch m.
 Proof.
   intros HJ. unfold step2.
-  inversion HJ as [i c p x d stt m0 Hi Hm HRx HNN HNd HWD HAg Hcl HFut|i c stt m0 Hm Htot]; subst; clear HJ.
+  inversion HJ as [i c p x d wc rc stt m0 Hi Hm HRx HCn HNN HNd HWD HAg Hcl HFut|i c stt m0 Hm Htot HCd]; subst; clear HJ.
   - destruct p as [|a rest].
     + unfold Sched.next, rsched. cbn [ob]. unfold RevConv.next. cbn [RevBridge3.rstate finished pend ops idx].
       change {| ops := L; idx := i; cs := c; pend := []; exhausted := false; finished := false |} with (rstate i c []).
-      destruct HFut as (acts & cf & xf & Hconv & Hexs & HT & Hsn & Hst & Hrr & Hef). cbn [app] in Hexs, HT. cbn [AgP] in HAg.
+      destruct HFut as (acts & cf & xf & Hconv & Hexs & HT & HW & HRd & Hsn & Hst & Hrr & Hef). cbn [app] in Hexs, HT, HW, HRd. cbn [AgP] in HAg.
       pose proof (RevBridge3.advance_spec N L (fun c => agree c x)
                     (fun i0 c0 c1 HP E => conv1_agree N R L i0 c0 c1 [] x E HP HWD)
                     (S (length L - i)) i c acts cf ltac:(lia) Hi HAg Hconv) as Hadv.
@@ -199,7 +206,9 @@ Proof.
         -- (* clean *)
            assert (Hexec : exec pDp (negb (isnone (get_max_n sch'))) (is_exhausted sch') (mx m) EndReverse = inl (apply pDp true (mx m) EndReverse)) by (apply exec_ok; exact Hchk).
            rewrite (mon_step_ok pDp sch' EndReverse m _ Hm Hexec).
-           ++ apply (Jdone (length L) cf true); [left; reflexivity|]. cbn [mx apply cnt]. unfold sumflen in HT. cbn [fold_right] in HT. lia.
+           ++ apply (Jdone (length L) cf true); [left; reflexivity| |].
+              ** cbn [mx apply cnt]. unfold sumflen in HT. cbn [fold_right] in HT. lia.
+              ** destruct HCn as [Cw Cr]. unfold Cn, sumdw, sumdr in *. cbn [fold_right] in HW, HRd. cbn [mx apply cnt]. split; lia.
            ++ cbn [apply fwd]. rewrite Rf. destruct HPcf as [Af Ar]. unfold RevBridge3.agree in Af. rewrite Af.
               cbn [get_max_n sch' ob isnone andb]. unfold get_n. cbn [sch' ob cs RevBridge3.rdone]. apply Z.eqb_refl.
            ++ cbn [apply rr]. rewrite Rrr. destruct HPcf as [Af Ar]. rewrite Ar. reflexivity.
@@ -207,24 +216,26 @@ Proof.
         -- (* a dead checkpoint is left on DISK: E_leftover, recorded at this action *)
            unfold mon_step. unfold mon_ok in Hm. rewrite Hm. unfold exec.
            change (is_exhausted sch') with true. change (negb (isnone (get_max_n sch'))) with true. rewrite Hchk.
-           apply (Jdone (length L) cf true); [right; eexists; reflexivity|]. cbn [mx]. unfold sumflen in HT. cbn [fold_right] in HT. lia.
+           apply (Jdone (length L) cf true); [right; eexists; reflexivity| |].
+           ++ cbn [mx]. unfold sumflen in HT. cbn [fold_right] in HT. lia.
+           ++ destruct HCn as [Cw Cr]. unfold Cn, sumdw, sumdr in *. cbn [fold_right] in HW, HRd. cbn [mx]. split; lia.
       * destruct Hadv as (i' & c0 & c' & rest & acts' & Hadv & [Hii' Hi'] & Htl & Hconv' & HP0 & Hc1). rewrite Hadv.
         destruct (dexecs_cons x a tl xf Hexs) as (x1 & Hex1 & Hexs1).
         pose proof (conv1_agree N R L (i' - 1) c0 c' (a :: rest) x Hc1 HP0 HWD) as HAg'. cbn [AgP] in HAg'. destruct (HAg' x1 Hex1) as [HA1 HAr].
-        pose proof (conv1_clears N L (i' - 1) c0 c' (a :: rest) Hc1) as Hcl'. apply Forall_cons_iff in Hcl'. destruct Hcl' as [Hcla Hclr]. rewrite Htl in Hexs1, HT.
-        destruct (emit_ok i' c' rest x d a x1 m _ eq_refl Hm HRx HNN HNd Hcla Hex1 HA1) as (m' & Hms & Hm' & HRx' & HNN' & HNd').
+        pose proof (conv1_clears N L (i' - 1) c0 c' (a :: rest) Hc1) as Hcl'. apply Forall_cons_iff in Hcl'. destruct Hcl' as [Hcla Hclr]. rewrite Htl in Hexs1, HT, HW, HRd.
+        destruct (emit_ok i' c' rest x d a x1 m _ eq_refl Hm HRx HNN HNd Hcla Hex1 HA1) as (m' & Hms & Hm' & HRx' & HNN' & HNd' & HCn').
         unfold rsched in Hms. rewrite Hms.
-        apply (Jrun i' c' rest x1 (d + MSTerm.flen a) true m' Hi' Hm' HRx' HNN' HNd' (dexec_WD N R x a x1 Hex1 HWD) HAr Hclr).
-        exists acts', cf, xf. unfold sumflen in *. cbn [fold_right] in HT. repeat split; try assumption. lia.
+        apply (Jrun i' c' rest x1 (d + MSTerm.flen a) (wc + DiskBridge2.dwa a) (rc + DiskBridge2.dra a) true m' Hi' Hm' HRx' (HCn' wc rc HCn) HNN' HNd' (dexec_WD N R x a x1 Hex1 HWD) HAr Hclr).
+        exists acts', cf, xf. unfold sumflen, sumdw, sumdr in *. cbn [fold_right] in HT, HW, HRd. repeat split; try assumption; lia.
     + unfold Sched.next, rsched. cbn [ob]. unfold RevConv.next. cbn [RevBridge3.rstate finished pend ops idx cs exhausted].
       change {| ops := L; idx := i; cs := c; pend := rest; exhausted := false; finished := false |} with (rstate i c rest).
-      destruct HFut as (acts & cf & xf & Hconv & Hexs & HT & Hfin). cbn [app] in Hexs, HT.
+      destruct HFut as (acts & cf & xf & Hconv & Hexs & HT & HW & HRd & Hfin). cbn [app] in Hexs, HT, HW, HRd.
       destruct (dexecs_cons x a (rest ++ acts) xf Hexs) as (x1 & Hex1 & Hexs1).
       cbn [AgP] in HAg. destruct (HAg x1 Hex1) as [HA1 HAr]. apply Forall_cons_iff in Hcl. destruct Hcl as [Hcla Hclr].
-      destruct (emit_ok i c rest x d a x1 m _ eq_refl Hm HRx HNN HNd Hcla Hex1 HA1) as (m' & Hms & Hm' & HRx' & HNN' & HNd').
+      destruct (emit_ok i c rest x d a x1 m _ eq_refl Hm HRx HNN HNd Hcla Hex1 HA1) as (m' & Hms & Hm' & HRx' & HNN' & HNd' & HCn').
       unfold rsched in Hms. rewrite Hms.
-      apply (Jrun i c rest x1 (d + MSTerm.flen a) true m' Hi Hm' HRx' HNN' HNd' (dexec_WD N R x a x1 Hex1 HWD) HAr Hclr).
-      exists acts, cf, xf. unfold sumflen in *. cbn [fold_right] in HT. split; [exact Hconv|]. split; [exact Hexs1|]. split; [lia|exact Hfin].
+      apply (Jrun i c rest x1 (d + MSTerm.flen a) (wc + DiskBridge2.dwa a) (rc + DiskBridge2.dra a) true m' Hi Hm' HRx' (HCn' wc rc HCn) HNN' HNd' (dexec_WD N R x a x1 Hex1 HWD) HAr Hclr).
+      exists acts, cf, xf. unfold sumflen, sumdw, sumdr in *. cbn [fold_right] in HT, HW, HRd. split; [exact Hconv|]. split; [exact Hexs1|]. split; [lia|]. split; [lia|]. split; [lia|exact Hfin].
   - unfold Sched.next, rsched. cbn [ob]. unfold RevConv.next. cbn [RevBridge3.rdone finished]. apply (Jdone i c true); assumption.
 Qed.
 
@@ -244,11 +255,11 @@ Lemma muS_nonneg sch m : J sch m -> 0 <= muS sch.
 Proof. intros HJ. inversion HJ; subst; unfold RevBridge3.muS, rsched; cbn [ob RevBridge3.rstate RevBridge3.rdone finished idx pend]; lia. Qed.
 Lemma muS_dec sch m : J sch m -> is_exhausted sch = false -> muS (fst (Sched.next sch)) < muS sch.
 Proof.
-  intros HJ He. inversion HJ as [i c p x d stt m0 Hi Hm HRx HNN HNd HWD HAg Hcl HFut|i c stt m0 Hm Htot]; subst; [|cbn in He; discriminate].
+  intros HJ He. inversion HJ as [i c p x d wc rc stt m0 Hi Hm HRx HCn HNN HNd HWD HAg Hcl HFut|i c stt m0 Hm Htot HCd]; subst; [|cbn in He; discriminate].
   unfold Sched.next, rsched. cbn [ob]. unfold RevConv.next. cbn [RevBridge3.rstate finished pend ops idx].
   destruct p as [|a rest].
   - change {| ops := L; idx := i; cs := c; pend := []; exhausted := false; finished := false |} with (rstate i c []).
-    destruct HFut as (acts & cf & xf & Hconv & Hexs & HT & Hsn & _). cbn [AgP] in HAg.
+    destruct HFut as (acts & cf & xf & Hconv & Hexs & HT & _ & _ & Hsn & _). cbn [AgP] in HAg.
     pose proof (RevBridge3.advance_spec N L (fun c => agree c x) (fun i0 c0 c1 HP E => conv1_agree N R L i0 c0 c1 [] x E HP HWD)
                   (S (length L - i)) i c acts cf ltac:(lia) Hi HAg Hconv) as Hadv.
     destruct acts as [|a tl].
@@ -260,7 +271,7 @@ Proof.
 Qed.
 Lemma exh_stays sch m : J sch m -> is_exhausted sch = true -> is_exhausted (fst (Sched.next sch)) = true.
 Proof.
-  intros HJ He. inversion HJ as [i c p x d stt m0 Hi Hm HRx HNN HNd HWD HAg Hcl HFut|i c stt m0 Hm Htot]; subst; [cbn in He; discriminate|].
+  intros HJ He. inversion HJ as [i c p x d wc rc stt m0 Hi Hm HRx HCn HNN HNd HWD HAg Hcl HFut|i c stt m0 Hm Htot HCd]; subst; [cbn in He; discriminate|].
   unfold Sched.next, rsched. cbn [ob]. unfold RevConv.next. cbn [RevBridge3.rdone finished fst ob is_exhausted RevConv.exhausted]. reflexivity.
 Qed.
 Lemma run_nexts2_fin : forall k s m, J s m -> (is_exhausted s = true \/ muS s < Z.of_nat k) ->
